@@ -479,7 +479,8 @@ def catalogue():
 
 
 SHAPES = [('int', 'struct', 'array'), ('scaled', 'tuple', 'string'), ('enum', 'nested', 'blob'),
-          ('float', 'array', 'int'), ('string', 'floatu', 'structm'), ('blob', 'enum', 'tuple')]
+          ('float', 'array', 'int'), ('string', 'floatu', 'structm'), ('blob', 'enum', 'tuple'),
+          ('strlim', 'limits', 'bool'), ('structm', 'limmax', 'strlim')]
 ALLTYPES = ['int', 'float', 'floatu', 'scaled', 'bool', 'string', 'strlim', 'blob', 'enum', 'array', 'tuple', 'struct',
             'structm', 'nested', 'limits', 'limmax']
 LIMIT_POSTFIX = {'limits': '_limits', 'limmax': '_max'}
@@ -1157,6 +1158,12 @@ def replay_group(job):
                 res['bad'] = {'step': k, 'expected': [alts[j][k] for j in live][:4], 'observed': obs[k],
                               'diff': _diff([alts[j][k] for j in live], obs[k]), 'outcome': outs[k],
                               'start_error': rp.w.start_error, 'obs': obs}
+                if obs[k]['alive'] and obs[k]['target']['k'] == 'json' and 'target' in res['bad']['diff']:
+                    # which datatypes are not (correctly) in the file although the save completed
+                    ns = sorted({types[int(P[1:]) - 1] for P, e in obs[k]['target']['ent'].items()
+                                 if e == '-' and obs[k]['val'][P] != '-'})
+                    if ns:
+                        res['bad']['notstored'] = ns
                 best = -1
                 if devalts is not None:
                     # explained from the first to the last step by the recorded deviation (as-implemented variant)?
@@ -1297,6 +1304,8 @@ def _rand_world(rnd, nmax=4, limits=False):
     types = tuple(rnd.choice(ALLTYPES if limits else ALLTYPES[:-2]) for _ in range(n))
     auto = [k for k in range(n) if rnd.random() < 0.5]
     hw = [k for k in range(n) if rnd.random() < 0.4]
+    if all(t in LIMIT_POSTFIX for t in types):
+        types += ('int',)
     return types, auto, hw
 
 
@@ -1455,12 +1464,12 @@ def stored_file(types, which=1):
     return w, w.fs.files[TARGET]
 
 
-def corruption_cases(types, tier, rnd):
-    """(label, bytes) for every corruption of the stored file"""
+def corruption_cases(types, tier, rnd, full=True):
+    """(label, bytes) for every corruption of the stored file (full: incl. truncation at every byte and bit flips)"""
     w, raw = stored_file(types)
-    cases = [('trunc', raw[:k]) for k in range(len(raw))]
-    bits = range(len(raw) * 8)
-    if tier == 'quick':
+    cases = [('trunc', raw[:k]) for k in range(len(raw))] if full else []
+    bits = range(len(raw) * 8) if full else []
+    if tier == 'quick' and full:
         bits = sorted(rnd.sample(list(bits), min(len(raw) * 8, 500)))
     for k in bits:
         b = bytearray(raw)
@@ -1487,9 +1496,9 @@ def corruption_cases(types, tier, rnd):
 
 
 def corruption_sweep(arg):
-    types, tier, seed, lo, hi = arg
+    types, tier, seed, lo, hi, full = arg
     rnd = random.Random(seed)
-    cases = corruption_cases(types, tier, rnd)[lo:hi]
+    cases = corruption_cases(types, tier, rnd, full)[lo:hi]
     res = []
     for idx, (label, data) in enumerate(cases):
         w = World(types, auto=[], haswrite=[])
@@ -1498,7 +1507,8 @@ def corruption_sweep(arg):
         cfg = {}
         if idx % 5 == 4:
             p = w.pnames[idx % len(w.pnames)]
-            cfg = {p: w.values[p][2]}
+            if w.types[p] not in LIMIT_POSTFIX:
+                cfg = {p: w.values[p][2]}
         w.start(cfg)
         res.append({'gen': ['corruption', list(types), label, data.decode('latin-1'), cfg and list(cfg)],
                     'types': w.types, 'trace': compress(w.trace)})
@@ -1594,9 +1604,19 @@ def _gen_pass(chk, name, cfg, nchunks, shapes_per, want_traces, tracebag, strict
     jobs = []
     three = '"P3"' in next(iter(groups))
     for gi, (key, alts) in enumerate(groups.items()):
+        # parameters declared without default or given a configured default: not for limits (their default is
+        # derived from the base parameter) and not for bool (two values only)
+        nodefs = set()
+        for a in json.loads(key):
+            if a['act'] == 'start':
+                nodefs |= set(a.get('nodef', [])) | {P for P, v in a.get('cdef', {}).items() if v != '-'}
         for sh in range(shapes_per):
             k = rnd.randrange(1 << 30)
-            types = SHAPES[(gi + sh * 5 + chk.seed) % len(SHAPES)][:3 if three else 2]
+            si = gi + sh * 5 + chk.seed
+            types = SHAPES[si % len(SHAPES)][:3 if three else 2]
+            while any(types[int(P[1:]) - 1] in LIMIT_POSTFIX or types[int(P[1:]) - 1] == 'bool' for P in nodefs):
+                si += 1         # (a limit always has a default; bool has only two values)
+                types = SHAPES[si % len(SHAPES)][:3 if three else 2]
             jobs.append((key, sorted(alts), (sorted(dgroups[key]) if key in dgroups else None), types, k,
                          (k if quick else None), nchunks, (gi + sh) % want_traces == 0))
     sample = json.loads(jobs[len(jobs) // 2][0]) if jobs else None
@@ -1628,6 +1648,10 @@ def _gen_pass(chk, name, cfg, nchunks, shapes_per, want_traces, tracebag, strict
                 raise MachineryError(f"{bad['machinery']}: {acts} {x['plans']}")
             detail = {'kind': 'gen', 'cfg': cfg, 'actions': acts, 'types': list(job[3]), 'variant': job[4],
                       'plans': x['plans'], 'failed': {k: v for k, v in bad.items() if k != 'obs'}}
+            if bad.get('notstored') and bad.get('dev_matched') != bad.get('dev_n', -1):
+                chk.violation({'module': 'Persistent', 'clause': 'RoundTrip', 'cause': 'value_not_stored',
+                               'dtypes': '+'.join(bad['notstored'])}, detail)
+                continue
             if x.get('start_events'):
                 sig = start_signature(x['start_events'][0], x['start_events'][1], x['types'])
                 chk.violation(sig, detail)
@@ -1726,9 +1750,9 @@ def _chunks(n, size):
 
 
 # (Gen configuration, datatype shapes per behaviour, every n-th execution also goes to trace validation)
-GEN_PLAN = {'quick': [('Gen_Persistent', 1, 5), ('Gen_PersistentC', 2, 5)],
+GEN_PLAN = {'quick': [('Gen_Persistent', 1, 5), ('Gen_PersistentC', 2, 6), ('Gen_PersistentO', 1, 8)],
             'thorough': [('Gen_Persistent', 1, 150), ('Gen_PersistentB', 3, 40), ('Gen_PersistentM', 1, 80),
-                         ('Gen_PersistentC', 3, 20)]}
+                         ('Gen_PersistentC', 3, 20), ('Gen_PersistentO', 1, 100)]}
 
 
 def run(chk):
@@ -1802,14 +1826,20 @@ def run(chk):
     for k in range(2 if quick else 12):
         types, auto, hw = _rand_world(rnd, 3)
         for where in ('change', 'save', 'start'):
-            sweeps.append((types, auto or ['p1'], hw, where, k % 2 == 1))
+            sweeps.append((types, auto or [0], hw, where, k % 2 == 1))
     for part in pool_map(fault_sweep, sweeps):
         items += part
     jobs = []
-    shapes = [tuple(rnd.sample(ALLTYPES, 3)) for _ in range(2 if quick else 10)] + [('struct', 'array', 'nested')]
-    for types in shapes:
-        ncases = len(corruption_cases(types, chk.tier, random.Random(chk.seed)))
-        jobs += [(types, chk.tier, chk.seed, lo, hi) for lo, hi in _chunks(ncases, 400)]
+    # every datatype gets its stored entries corrupted (kinds, bad entries, dropped / renamed / foreign keys);
+    # truncation at every byte and bit flips on some shapes (quick) / on all (thorough)
+    order = list(ALLTYPES)
+    rnd.shuffle(order)
+    shapes = [(tuple(order[k:k + 4]), not quick or k < 4) for k in range(0, len(order), 4)]
+    shapes += [(tuple(rnd.sample(ALLTYPES[:-2], 3)), True) for _ in range(0 if quick else 8)]
+    shapes.append((('struct', 'array', 'nested'), True))
+    for types, full in shapes:
+        ncases = len(corruption_cases(types, chk.tier, random.Random(chk.seed), full))
+        jobs += [(types, chk.tier, chk.seed, lo, hi, full) for lo, hi in _chunks(ncases, 400)]
     for part in pool_map(corruption_sweep, jobs):
         items += part
     chk.notes['traces'] = {'from_gen_replays': len(bag), 'total': len(items),
@@ -1844,7 +1874,7 @@ def replay(chk, rep):
         w = World(tuple(gen[1]))
         w.fs.dirs.add(posixpath.dirname(TARGET))
         w.fs.files[TARGET] = gen[3].encode('latin-1')
-        w.start({p: w.values[p][2] for p in (gen[4] or [])})
+        w.start({p: w.values[p][2] for p in (gen[4] or [])})   # (gen[4]: configured parameters)
         print('stored file:', w.fs.files.get(TARGET) and gen[3], 'start error:', w.start_error)
         item = {'trace': compress(w.trace)}
     else:
